@@ -240,6 +240,15 @@ Theorem same_sequence_pointwise : forall nch term progs sched s i c p,
 Proof. exact MuxSeq.same_sequence_pointwise. Qed.
 Print Assumptions same_sequence_pointwise.
 
+(** every complete run (all consumers finished — by [no_stuck] and
+    [all_terminate] the only maximal ones) leaves consumer i with exactly the
+    first k_i results of the source: identical sequences for all who read *)
+Theorem same_sequence_at_the_end : forall nch term progs sched s,
+  progs <> [] -> Mux.run nch term (init progs) sched = Some s -> all_done s = true ->
+  map got (cs s) = map (fun p => items nch term (prog_reads p)) progs.
+Proof. exact final_results. Qed.
+Print Assumptions same_sequence_at_the_end.
+
 (** the source is closed at most once, and it is closed exactly when every
     consumer has finished *)
 Theorem source_closed_once_after_all : forall nch term progs sched s,
